@@ -74,6 +74,43 @@ func (u *Unit) ptrBoundIn(st *State, v Term, t types.Type) Term {
 	return True
 }
 
+// Hand-over sets (built-in ghosts of every unit, kept in st.ghost so that joins and loop cuts treat them like ghosts):
+//   #retained  arrays of the byte slices handed to a callee that keeps them by reference (`retains p`: badger's Txn.Set
+//              keeps key and value until the transaction ends); writing such an array afterwards is an obligation
+//              (retained:…), because the write changes what the callee will store
+//   #consumed  references handed to a callee that may receive each reference once only (`consumes p`: the target of
+//              json.Unmarshal - decoding into a used object merges instead of replacing); a second hand-over is an
+//              obligation (once@…)
+// Both start empty; a loop that hands something over forgets them except that every member exists (is not above the
+// allocation frontier of the loop head), so what an iteration allocates is known not to be a member.
+const ghRetained, ghConsumed = "#retained", "#consumed"
+
+var emptyIntSet = Term{"((as const (Array Int Bool)) false)", ArraySort(SInt, SBool)}
+
+func (u *Unit) handoffGet(st *State, name string) Term {
+	if _, ok := u.gens["ghost0:"+name]; !ok {
+		u.gens["ghost0:"+name] = emptyIntSet
+	}
+	if t, ok := st.ghost[name]; ok {
+		return t
+	}
+	return emptyIntSet
+}
+
+func (u *Unit) handoffAdd(st *State, name string, addr Term) {
+	st.ghost[name] = u.defs.Define("ho_"+name[1:], Store(u.handoffGet(st, name), addr, True))
+}
+
+// retainedWrite: an element of the byte array arr is about to be written.
+func (u *Unit) retainedWrite(st *State, arr Term) {
+	t, ok := st.ghost[ghRetained]
+	if !ok || st.dead {
+		return
+	}
+	u.retainedCtr++
+	u.addObl(st, "retained", fmt.Sprintf("a-buffer-handed-to-a-transaction-is-not-written-before-the-transaction-ends:#%d", u.retainedCtr), Not(Select(t, arr)), nil)
+}
+
 func (u *Unit) newAddr(st *State, hint string) Term {
 	u.allocCtr++
 	a := u.defs.Fresh(hint, SInt)
@@ -235,6 +272,9 @@ func (u *Unit) storeLV(lv *LValue, v Val, elemTy types.Type, st *State) {
 		arr := u.heapGet(st, lv.Class, asort)
 		u.heapSet(st, lv.Class, u.defs.Define("H_"+lv.Class, Store(arr, lv.Base, val)))
 	case "elem":
+		if lv.Class == elemClass(types.Typ[types.Uint8]) {
+			u.retainedWrite(st, lv.Base)
+		}
 		asort := ArraySort(SInt, ArraySort(SInt, lv.Sort))
 		arr := u.heapGet(st, lv.Class, asort)
 		inner := Select(arr, lv.Base)
@@ -559,6 +599,17 @@ func (f *Frame) enterLoop(li *loopInfo, cur *State, phiEntry map[*ssa.Phi]Val) *
 		nt := u.defs.Fresh("top_loop", SInt)
 		u.assume(st, App(">=", SBool, nt, u.topOf(cur)))
 		st.top = nt
+	}
+	for _, g := range []string{ghRetained, ghConsumed} {
+		if !mods.ghosts[g] && !mods.allGhosts {
+			continue
+		}
+		ng := u.defs.Fresh("lg_"+g[1:], ArraySort(SInt, SBool))
+		u.handoffGet(st, g)
+		st.ghost[g] = ng
+		u.qctr++
+		qa := Term{fmt.Sprintf("q%d_a", u.qctr), SInt}
+		u.assume(st, Term{fmt.Sprintf("(forall ((%s Int)) (! (=> (select %s %s) (<= %s %s)) :pattern ((select %s %s))))", qa.S, ng.S, qa.S, qa.S, st.top.S, ng.S, qa.S), SBool})
 	}
 	li.phiHead = map[*ssa.Phi]Val{}
 	for p := range phiEntry {
